@@ -9,6 +9,7 @@ PROPS = {
                       {"harness": "offsetopen", "args": ["--ko", 4, "--omax", 4, "--mix", 2]}],
             "thorough": [{"harness": "offsetopen", "args": ["--ko", 6, "--omax", 4, "--mix", 1]},
                          {"harness": "offsetopen", "args": ["--ko", 5, "--omax", 3, "--mix", 2]},
+                         {"harness": "offsetopen", "args": ["--ko", 4, "--omax", 4, "--mix", 2]},
                          {"harness": "offsetopen", "args": ["--ko", 4, "--omax", 2, "--mix", 3]}],
         },
         "rule": "every ordered tuple of 1..n distinct open-board points passing the turning-angle filter as open polyline (self-crossing included), alone x {Joined, Butt, Square, Round} x delta {3.5, 10} x {Round x arc {0, 0.5}, Miter x limit {1.5, 3}, Square, Bevel, Round+ReverseSolution}; "
